@@ -120,7 +120,7 @@ def gen_case(rng, kind):
         expect = [("error", "Adjacent literals in expression used in a subword context", "plantedone"), ("error", None, "plantedtwo")]
     elif kind == "parse-error":
         stmts.append("cmd z;")
-        bad = rng.choice(["plantedstmt ) oops;", "plantedstmt ( a | ;", "plantedstmt a \\q;", "plantedstmt [ x ;", "plantedstmt <unterminated ;",
+        bad = rng.choice(["plantedstmt ) oops;", "plantedstmt ( a | ;", "plantedstmt a \\q;", "plantedstmt [ x ;",
                           "<plantedstmt> = a ||| b;", "<plantedstmt> ::= fast\n         | slow \"desc\" extra) ;", "<plantedstmt@bash> = {{{ ls }} ;",
                           "<plantedstmt> = [ x ;", "<plantedstmt> a;"])
         k = rng.randrange(1, len(stmts) + 1)
